@@ -134,3 +134,13 @@ Definition iev_win (e : iev) : Z := match e with IKey w => w | IMouse w _ _ _ _ 
 Definition c14_rest_checkb (closed : list Z) (expected observed : list iev) : bool :=
   ievs_eqb (filter (fun e => negb (mem (iev_win e) closed)) expected)
            (filter (fun e => negb (mem (iev_win e) closed)) observed).
+
+(* When the handler closed ANOTHER window the tree the rest of the routing sees is a
+   different one (e.g. a stealing window may become the frontmost child), so the order of
+   the remaining deliveries may legitimately differ; what must not happen is that a
+   remaining window is left out or offered the event twice: same deliveries as a multiset. *)
+Definition iev_count (e : iev) (l : list iev) : nat := length (filter (iev_eqb e) l).
+Definition c14_rest_set_checkb (closed : list Z) (expected observed : list iev) : bool :=
+  let ex := filter (fun e => negb (mem (iev_win e) closed)) expected in
+  let ob := filter (fun e => negb (mem (iev_win e) closed)) observed in
+  forallb (fun e => Nat.eqb (iev_count e ex) (iev_count e ob)) (ex ++ ob).
